@@ -263,6 +263,23 @@ theorem welfareLoop_spec (f : Nat → Rat) (idx : List Nat) :
     | nil => rfl
     | cons i is ih => simp [List.filter_cons, ih]
 
+/-- the per-voter arg-max loop of `popularity_comparison` (statement-level leaf `Gen.C19.voterLoop`, regenerated from
+    `for i, s in enumerate(sats): …`) is the SAME loop as the one of the welfare comparison … -/
+theorem voterLoop_eq_welfareLoop : ∀ (xs : List (Nat × Rat)) (best : Option Rat) (arg : List Nat),
+    Gen.C19.voterLoop best arg xs = Gen.C19.welfareLoop best arg xs
+  | [], best, arg => by simp [Gen.C19.voterLoop, Gen.C19.welfareLoop]
+  | x :: xs, best, arg => by
+    rw [Gen.C19.voterLoop, Gen.C19.welfareLoop, voterLoop_eq_welfareLoop xs, voterLoop_eq_welfareLoop xs, voterLoop_eq_welfareLoop xs]
+
+/-- … hence, on a voter's satisfactions with the outcomes numbered in order, it returns the positions of exactly the voter's
+    favourite outcomes (all of them when she is indifferent) -/
+theorem voterLoop_spec (f : Nat → Rat) (idx : List Nat) :
+    Gen.C19.voterLoop none [] (idx.map (fun i => (i, f i))) =
+      (maxRat (idx.map f), match maxRat (idx.map f) with
+        | none => []
+        | some mx => idx.filter (fun i => decide (f i = mx))) := by
+  rw [voterLoop_eq_welfareLoop, welfareLoop_spec]
+
 /-- the per-voter loop of `popularity_comparison`: the model's favourites of a voter are the `arg_max_sat`
     list of the code's loop -/
 theorem favourites (s : List Pid → Rat) (rs : List (List Pid)) :
